@@ -32,17 +32,19 @@ type authHostCfg struct {
 	Creds     string   `json:"creds"` // none, basic, refresh, static
 	FailCfg   bool     `json:"config_lookup_fails,omitempty"`
 	// token server
-	TokenMode       string `json:"token_mode"`                 // grant, ceiling (refuses scopes wider than one repository pull/push), nopost (404 on POST)
-	Lifetime        int    `json:"lifetime"`                   // expires_in; 0 = omitted (default 60 s)
-	LifetimePattern []int  `json:"lifetime_pattern,omitempty"` // if set, the k-th issued token gets LifetimePattern[k mod len] (0 = omitted)
-	TokenFault      string `json:"token_fault,omitempty"`      // "", 401, 403, 500, 302, badjson, notoken, empty200
-	RealmHost       string `json:"realm_host,omitempty"`       // default auth-<host>
+	TokenMode       string  `json:"token_mode"`                     // grant, ceiling (refuses scopes wider than one repository pull/push), nopost (404 on POST)
+	Lifetime        int     `json:"lifetime"`                       // expires_in; 0 = omitted (default 60 s)
+	LifetimePattern []int   `json:"lifetime_pattern,omitempty"`     // if set, the k-th issued token gets LifetimePattern[k mod len] (0 = omitted)
+	TokenFault      string  `json:"token_fault,omitempty"`          // "", 401, 403, 500, 302, badjson, notoken, empty200
+	RealmHost       string  `json:"realm_host,omitempty"`           // default auth-<host>
+	TokenDelay      float64 `json:"token_server_seconds,omitempty"` // virtual time a token request takes (a slow token server)
 }
 
 type issuedToken struct {
 	Token    string
 	Host     string
-	Scope    ociauth.Scope
+	Scope    ociauth.Scope      // for display only
+	Set      map[[3]string]bool // what the token grants, as plain (type, name, action) triples: the oracle's own representation
 	Issued   time.Time
 	Lifetime time.Duration
 }
@@ -61,17 +63,18 @@ type sentReq struct {
 }
 
 type authNet struct {
-	hosts     map[string]*authHostCfg // registry hosts
-	realms    map[string]*authHostCfg // realm host -> registry config it serves
-	now       time.Time
-	issued    []*issuedToken
-	sent      []sentReq
-	trip      int
-	ntok      int
-	basicSeen map[string]bool            // registry host -> has sent a Basic challenge
-	named     map[string]map[string]bool // registry host -> realm hosts it has named in a challenge
-	tripHost  map[int]string             // registry host a RoundTrip of the harness is addressed to (token attribution)
-	curTrip   int
+	bearerPresented bool                    // the request being answered carried a Bearer token (for escalating challenges)
+	hosts           map[string]*authHostCfg // registry hosts
+	realms          map[string]*authHostCfg // realm host -> registry config it serves
+	now             time.Time
+	issued          []*issuedToken
+	sent            []sentReq
+	trip            int
+	ntok            int
+	basicSeen       map[string]bool            // registry host -> has sent a Basic challenge
+	named           map[string]map[string]bool // registry host -> realm hosts it has named in a challenge
+	tripHost        map[int]string             // registry host a RoundTrip of the harness is addressed to (token attribution)
+	curTrip         int
 }
 
 // secrets are unique per host and never substrings of one another
@@ -146,6 +149,8 @@ func (n *authNet) challengeFor(c *authHostCfg, demand ociauth.Scope) []string {
 		scopeText = first
 	case "unrelated":
 		scopeText = "repository:zzz:pull"
+	case "escalating":
+		// see registry(): the demand passed in is already the one to be shown
 	case "empty":
 		scopeText = ""
 	case "unparsable":
@@ -169,13 +174,14 @@ func (n *authNet) challengeFor(c *authHostCfg, demand ociauth.Scope) []string {
 	return nil
 }
 
-func (n *authNet) tokenValid(tok, host string, demand ociauth.Scope) bool {
+func (n *authNet) tokenValid(tok, host string, demandText string) bool {
+	demand := scopeSet(demandText)
 	c := n.hosts[host]
 	if c != nil && c.Creds == "static" && tok == c.static() {
 		return true
 	}
 	for _, it := range n.issued {
-		if it.Token == tok && it.Host == host && !n.now.After(it.Issued.Add(it.Lifetime)) && it.Scope.Contains(demand) {
+		if it.Token == tok && it.Host == host && !n.now.After(it.Issued.Add(it.Lifetime)) && setContains(it.Set, demand) {
 			return true
 		}
 	}
@@ -194,6 +200,9 @@ type authTripKey struct{}
 
 // RoundTrip is the underlying transport of the auth transport under test.
 func (n *authNet) RoundTrip(req *http.Request) (*http.Response, error) {
+	// The moment the transport hands the request over is what "sent" means: a token may legitimately
+	// run out while the request is in flight, but not before it leaves.
+	handedOver := n.now
 	vsync.Yield() // the network is slow: anything may happen before the request arrives
 	trip := n.trip
 	if t, ok := req.Context().Value(authTripKey{}).(int); ok {
@@ -207,7 +216,7 @@ func (n *authNet) RoundTrip(req *http.Request) (*http.Response, error) {
 	}
 	host := req.URL.Host
 	n.curTrip = trip
-	rec := sentReq{Trip: trip, Dest: host, Method: req.Method, Path: req.URL.Path, Auth: req.Header.Get("Authorization"), Body: body, Query: req.URL.RawQuery, Time: n.now}
+	rec := sentReq{Trip: trip, Dest: host, Method: req.Method, Path: req.URL.Path, Auth: req.Header.Get("Authorization"), Body: body, Query: req.URL.RawQuery, Time: handedOver}
 	var resp *http.Response
 	if c := n.hosts[host]; c != nil {
 		rec.Kind = "registry"
@@ -226,14 +235,25 @@ func (n *authNet) RoundTrip(req *http.Request) (*http.Response, error) {
 }
 
 func (n *authNet) registry(c *authHostCfg, req *http.Request) *http.Response {
-	demand := ociauth.ParseScope(req.Header.Get("X-Demand"))
+	demandText := req.Header.Get("X-Demand")
+	demand := ociauth.ParseScope(demandText)
 	auth := req.Header.Get("Authorization")
+	shown := demand // the scope the challenge will name
+	if c.Challenge == "escalating" {
+		// the registry really wants more than the caller declared: its challenge to an unauthenticated
+		// request names the declared scope, its challenge to an (insufficient) token names the rest too
+		demandText += " repository:x:delete"
+		demand = ociauth.ParseScope(demandText)
+		if strings.HasPrefix(auth, "Bearer ") {
+			shown = demand
+		}
+	}
 	ok := false
 	switch {
 	case demand.IsEmpty() && c.Scheme == "none":
 		ok = true
 	case strings.HasPrefix(auth, "Bearer "):
-		ok = (c.Scheme != "basic") && n.tokenValid(strings.TrimPrefix(auth, "Bearer "), c.Host, demand)
+		ok = (c.Scheme != "basic") && n.tokenValid(strings.TrimPrefix(auth, "Bearer "), c.Host, demandText)
 	case strings.HasPrefix(auth, "Basic "):
 		raw, _ := base64.StdEncoding.DecodeString(strings.TrimPrefix(auth, "Basic "))
 		ok = (c.Scheme == "basic" || strings.HasPrefix(c.Scheme, "both")) && string(raw) == c.username()+":"+c.password()
@@ -245,7 +265,8 @@ func (n *authNet) registry(c *authHostCfg, req *http.Request) *http.Response {
 		return respond(req, 200, nil, "ok")
 	}
 	h := http.Header{}
-	chals := n.challengeFor(c, demand)
+	n.bearerPresented = strings.HasPrefix(auth, "Bearer ")
+	chals := n.challengeFor(c, shown)
 	if c.Scheme == "always401" {
 		chals = []string{fmt.Sprintf(`Bearer realm="https://%s/token",service="svc-%s",scope="%s"`, c.realmHost(), c.Host, demand.String())}
 	}
@@ -271,6 +292,9 @@ func (n *authNet) registry(c *authHostCfg, req *http.Request) *http.Response {
 }
 
 func (n *authNet) tokenServer(c *authHostCfg, req *http.Request, body string) *http.Response {
+	if c.TokenDelay > 0 {
+		n.tick(time.Duration(c.TokenDelay * float64(time.Second))) // the token server is slow: time passes while the caller holds whatever it holds
+	}
 	switch c.TokenFault {
 	case "401", "403", "500":
 		var st int
@@ -278,6 +302,11 @@ func (n *authNet) tokenServer(c *authHostCfg, req *http.Request, body string) *h
 		return respond(req, st, nil, `{"errors":[{"code":"DENIED"}]}`)
 	case "302":
 		return respond(req, 302, nil, "")
+	case "302-elsewhere", "303-elsewhere", "307-elsewhere", "308-elsewhere":
+		// the realm sends the client on to a host that no challenge named
+		var st int
+		fmt.Sscan(c.TokenFault[:3], &st)
+		return respond(req, st, http.Header{"Location": {"https://elsewhere.example/token?" + req.URL.RawQuery}}, "")
 	case "badjson":
 		return respond(req, 200, nil, `{"token":`)
 	case "notoken":
@@ -308,7 +337,7 @@ func (n *authNet) tokenServer(c *authHostCfg, req *http.Request, body string) *h
 		return respond(req, 405, nil, "")
 	}
 	scope := ociauth.ParseScope(scopeText)
-	if c.TokenMode == "ceiling" && scope.Len() > 2 {
+	if c.TokenMode == "ceiling" && len(scopeSet(scopeText)) > 2 {
 		return respond(req, 401, nil, `{"errors":[{"code":"UNAUTHORIZED","message":"scope too wide"}]}`)
 	}
 	n.ntok++
@@ -325,7 +354,7 @@ func (n *authNet) tokenServer(c *authHostCfg, req *http.Request, body string) *h
 	if h, ok := n.tripHost[n.curTrip]; ok {
 		owner = h // the token belongs to the registry on whose behalf it was requested
 	}
-	n.issued = append(n.issued, &issuedToken{Token: tok, Host: owner, Scope: scope, Issued: n.now, Lifetime: life})
+	n.issued = append(n.issued, &issuedToken{Token: tok, Host: owner, Scope: scope, Set: scopeSet(scopeText), Issued: n.now, Lifetime: life})
 	out := map[string]any{"token": tok}
 	if lt != 0 {
 		out["expires_in"] = lt
